@@ -81,6 +81,12 @@ int main() {
             dump_lwe(c, n, res);
             rp.G(1, alpha); rp.U(n);
             delete_LweSample(c); delete_LweKey(k); delete_LweParams(lp);
+        } else if (opc == 14) {   // lweSymEncryptWithExternalNoise: n key message noise_num noise_exp
+            int n = v[0]; LweParams *lp = new_LweParams(n, alpha, 0.25); LweKey *k = new_LweKey(lp); LweSample *c = new_LweSample(lp);
+            for (int i = 0; i < n; i++) k->key[i] = (int32_t) v[1 + i];
+            lweSymEncryptWithExternalNoise(c, (int32_t) v[1 + n], ldexp((double) v[2 + n], -(int) v[3 + n]), alpha, k);
+            dump_lwe(c, n, res); rp.U(n);
+            delete_LweSample(c); delete_LweKey(k); delete_LweParams(lp);
         } else if (opc == 3) {
             int n = v[0]; LweParams *lp = new_LweParams(n, alpha, 0.25); LweKey *k = new_LweKey(lp); LweSample *c = new_LweSample(lp);
             for (int i = 0; i < n; i++) { k->key[i] = (int32_t) v[1 + i]; c->a[i] = (int32_t) v[1 + n + i]; } c->b = (int32_t) v[1 + 2 * n];
